@@ -307,6 +307,9 @@ def run(tier='quick'):
                         'function contains a throw', floor=150)
     U8 = chk.rule('U8', 'id(), copy construction, assignment and destruction of track / crate / database reach '
                         'no SQL statement; is_valid() issues a single counting / existence query', floor=10)
+    U10 = chk.rule('U10', 'no null pointer reaches memcpy / memmove: a pointer taken from data() of a vector or string '
+                          'is passed only where the container is known to be non-empty (a null pointer is undefined '
+                          'behaviour there even for length 0)', floor=2)
     U9 = chk.rule('U9', 'every recursive function of the library descends along children() of the crate forest, '
                         'which rules T1 / T2 of C07 keep acyclic', floor=1)
     chk.assume('asserts are compiled out (the shipped build defines NDEBUG); allocation failure surfaces as an '
@@ -322,6 +325,36 @@ def run(tier='quick'):
     def visit(n, facts, func):
         k = n.get('kind')
         key = (locstr(n), (n.get('loc') or [0, 0, 0, 0])[3] if n.get('loc') else 0, k)
+        if k == 'CallExpr':
+            nm = (strip(children(n)[0]).get('referencedDecl') or {}).get('name')
+            if nm in ('memcpy', 'memmove', 'memcmp'):
+                for ai, a in enumerate(children(n)[1:3]):
+                    x = strip(a, explicit=True)
+                    while x.get('kind') in ('CXXReinterpretCastExpr', 'CStyleCastExpr', 'CXXStaticCastExpr',
+                                            'ImplicitCastExpr', 'ParenExpr') and children(x):
+                        x = strip(children(x)[0], explicit=True)
+                    if x.get('kind') != 'CXXMemberCallExpr':
+                        continue
+                    callee = strip(children(x)[0])
+                    if callee.get('name') != 'data' or not children(callee):
+                        continue
+                    recv = children(callee)[0]
+                    rt = strip(recv).get('type') or ''
+                    if 'vector' not in rt and 'basic_string' not in rt and 'string' not in rt:
+                        continue
+                    if (key, ai) in seen:
+                        continue
+                    seen.add((key, ai))
+                    p = guards.canon(recv)
+                    inst = '%s: %s argument %d is %s.data()' % (_short(func.qualname), nm, ai + 1, (p or '?').split(':')[-1])
+                    if p and (('NZ:' + p + '.size()') in facts or ('B', '0', '<', p + '.size()') in facts):
+                        chk.ok(U10, inst + ', the container is known to be non-empty', locstr(n))
+                    else:
+                        chk.violation(U10, '%s|%s(%s.data())' % (_short(func.qualname), nm, (p or '?').split(':')[-1]),
+                                      locstr(n),
+                                      '%s with no dominating test that the container is non-empty: data() of an empty '
+                                      'vector may be a null pointer, and passing a null pointer to %s is undefined '
+                                      'behaviour even when the length is 0' % (inst, nm))
         if k == 'CXXOperatorCallExpr':
             c = children(n)
             op = (strip(c[0]).get('referencedDecl') or {}).get('name')
@@ -463,6 +496,10 @@ def run(tier='quick'):
     from . import c07, c11
     c07.cycle_guard(prog, cg, eff, chk, U9)
     c11.forest_encodings(prog, cg, eff, chk, U9, only=('sub', 'move'), paths=False)
+    # 2.x: the closure the guard (and the isPersist triggers) read is defined by the recursive views;
+    # every version's copy must be the definition its siblings / the reference dump carry
+    from . import c08
+    c08.chain_trigger_siblings(prog, chk, U9, tables=(), views=('playlistallchildren', 'playlistallparent'))
     return chk.finish('must-fact (dominance) analysis over the structured AST of every function of the library '
                       'outside the schema creators: %d functions; optional dereferences, container indexing, '
                       'iterator uses and integer divisions are obligations discharged by dominating guards' % len(chk.functions_analysed))
